@@ -492,6 +492,9 @@ def task_hyp(ctx: Ctx, shard: int, n: int, cultures: list[str]) -> None:
             for key, unit in (("ns", 60 * 10**9), ("i", 60 * 10**9), ("s", 60)):
                 if key in vv and use_tmpl:
                     vv[key] -= vv[key] % (unit * (60 if len(pattern) % 2 else 1))
+            if "cal" in vv and vv["cal"] != "ISO":
+                iso = pyo.cal("ISO")
+                vv["cal"], vv["n"] = "ISO", max(iso._min_days, min(iso._max_days, vv["n"]))
             if t == "duration" and "ns" in vv:
                 vv["ns"] = max(-(2**24) * DAY, min(2**24 * DAY, vv["ns"]))
             ctx.case("composite", {"type": t, "value": vv, "upto": 1 + len(pattern) % 3 if len(pattern) % 5 == 0 else 9})
